@@ -820,6 +820,10 @@ func c09JudgeList(c *run.Ctx, dir string, exposure bool) ([]tuple, bool, int, ma
 			return nil, false, 0, nil, false
 		}
 		outs[f] = res.Output
+		r.Ev("outputs_rendered_twice_by_one_analyzer", 1)
+		if res.OutputAgainDiffers {
+			r.Violate("c09.encode", "c09.encode:"+f+":second-rendering-differs", "the same bytes when the same analyzer renders the same connections again", firstDiffText(res.Output, res.OutputAgain), f)
+		}
 		if f == "txt" {
 			api = res
 		}
